@@ -632,3 +632,34 @@ M('c10-conditional-release', ['C10', 'C14', 'C09'], ['R10.2', 'R14.1', 'R9.8'], 
   "            self._new_cache.start_building_file(filename)\n        except Exception:\n"
   "            if locked_created_dirs:\n"
   "                self._build_dirs.error_building_file(filename)\n            raise\n")])
+
+# ---- R18.6 (key collisions) -------------------------------------------------
+M('c18-sanitize-setdefault', 'C18', 'R18.6', [(JU,
+  "                result[JsonUtil._key_to_str(key)] = JsonUtil.sanitize(subvalue)\n",
+  "                result.setdefault(\n"
+  "                    JsonUtil._key_to_str(key), JsonUtil.sanitize(subvalue))\n")],
+  'first member wins among colliding keys')
+M('c18-sanitize-first-wins-guard', 'C18', 'R18.6', [(JU,
+  "                result[JsonUtil._key_to_str(key)] = JsonUtil.sanitize(subvalue)\n",
+  "                str_key = JsonUtil._key_to_str(key)\n"
+  "                if str_key not in result:\n"
+  "                    result[str_key] = JsonUtil.sanitize(subvalue)\n")])
+M('c18-sanitize-reversed-items', 'C18', 'R18.6', [(JU,
+  "            for key, subvalue in value.items():\n                result[JsonUtil._key_to_str(key)]",
+  "            for key, subvalue in reversed(list(value.items())):\n                result[JsonUtil._key_to_str(key)]")])
+
+# ---- R4.8 / R14.7 (reference-count walks) -----------------------------------
+M('c04-refcount-reserve-threshold', ['C04', 'C14'], ['R4.8', 'R14.7'], [(BD,
+  "                self._build_dir_counts[norm_cased_parent] = count + 1\n                if count > 0:",
+  "                self._build_dir_counts[norm_cased_parent] = count + 1\n                if count > 1:")],
+  'second reservation of a directory bumps the ancestors again')
+M('c04-refcount-release-threshold', ['C04', 'C14'], ['R4.8', 'R14.7'], [(BD,
+  "                count = self._build_dir_counts[parent] - 1\n                if count > 0:",
+  "                count = self._build_dir_counts[parent] - 1\n                if count > 1:")])
+M('c04-refcount-release-keeps-zero', ['C04', 'C14'], ['R4.8', 'R14.7'], [(BD,
+  "                self._build_dir_counts.pop(parent)\n",
+  "                self._build_dir_counts[parent] = 0\n")],
+  'a zero count stays in the map: membership tests see a reservation')
+M('c04-refcount-release-never-stops', ['C04', 'C14'], ['R4.8', 'R14.7'], [(BD,
+  "                if count > 0:\n                    self._build_dir_counts[parent] = count\n                    break\n",
+  "                if count > 0:\n                    self._build_dir_counts[parent] = count\n                    prev_parent = parent\n                    parent = os.path.dirname(parent)\n                    continue\n")])
